@@ -18,38 +18,50 @@ VARIABLES l,        \* next event
           cfgLine,  \* last event with a "cfg" field
           gpLine,   \* last event with a "gp" field (parameters + ACL)
           dev,      \* ghost: a restart lost the feature map on the known pattern (since the last reset)
+          polluted, \* ghost: the process's activation map changed with no upgrade delivered (until the next restart)
           errs
 
-tvars == <<l, cfgLine, gpLine, dev, errs>>
+tvars == <<l, cfgLine, gpLine, dev, polluted, errs>>
 MaxErrs == 400
-TraceInit == l = 1 /\ cfgLine = 1 /\ gpLine = 1 /\ dev = FALSE /\ errs = <<>>
+TraceInit == l = 1 /\ cfgLine = 1 /\ gpLine = 1 /\ dev = FALSE /\ polluted = FALSE /\ errs = <<>>
 
 Full(st, gp) == [bal |-> st.bal, supply |-> st.supply, nopk |-> st.nopk, daoOwner |-> st.daoOwner, upg |-> st.upg,
                  featMem |-> st.featMem, probe |-> st.probe, rest |-> st.rest, params |-> gp.params, acl |-> gp.acl]
 
-DeliverTags(pre, c, e, post) ==
-    LET tx  == e.tx
-        h   == e.h
-        ok  == e.res.code = 0
-        own == IF tx.kind = "upgrade" THEN "C37" ELSE "C36"
+\* Between two recorded steps the driver produces off-chain NOISE (CheckTx and app/simulate of forged or
+\* foreign transactions) which is not an event: whatever it leaves behind shows as a difference between
+\* the logged pre-state and what the next step starts from.  A change of the process's activation map
+\* with no upgrade delivered is tagged "C37S" (a simulated upgrade message wrote the process-global
+\* schedule); the governance fields proper are then judged with that map factored out.
+MapMoved(pre, post) == post.featMem # pre.featMem \/ post.probe # pre.probe
+SameMap(pre, post)  == [post EXCEPT !.featMem = pre.featMem, !.probe = pre.probe]
+
+DeliverTags(pre, c, e, post0) ==
+    LET tx   == e.tx
+        h    == e.h
+        ok   == e.res.code = 0
+        own  == IF tx.kind = "upgrade" THEN "C37" ELSE "C36"
+        post == IF tx.kind = "upgrade" THEN post0 ELSE SameMap(pre, post0)
     IN IF tx.kind \notin GovKinds THEN {}
-       ELSE IF GovAnteClass(pre, c, tx, h) # "ok"
-         THEN IF post # pre \/ ok THEN {"C36"} ELSE {}
-         ELSE (IF post = GovDeliver(pre, c, tx, h) /\ ok = GovDeliverOK(pre, c, tx, h) THEN {} ELSE {own})
-              \cup (IF Step_C36_Param(pre, tx, post) /\ Step_C36_Dao(pre, tx, post, ok) /\ Step_C36_Upgrade(pre, tx, post, ok)
-                    THEN {} ELSE {"C36"})
-              \cup (IF Step_C37_Upgrade(pre, tx, post, ok) THEN {} ELSE {"C37"})
+       ELSE (IF tx.kind # "upgrade" /\ MapMoved(pre, post0) THEN {"C37S"} ELSE {})
+            \cup
+            (IF GovAnteClass(pre, c, tx, h) # "ok"
+               THEN IF post # pre \/ ok THEN {"C36"} ELSE {}
+               ELSE (IF post = GovDeliver(pre, c, tx, h) /\ ok = GovDeliverOK(pre, c, tx, h) THEN {} ELSE {own})
+                    \cup (IF Step_C36_Param(pre, tx, post) /\ Step_C36_Dao(pre, tx, post, ok) /\ Step_C36_Upgrade(pre, tx, post, ok)
+                          THEN {} ELSE {"C36"})
+                    \cup (IF Step_C37_Upgrade(pre, tx, post, ok) THEN {} ELSE {"C37"}))
 
 \* BeginBlock: the only governance effect is the ACL extension on feature activation heights.  Existing
 \* parameters keep their values; the modules that own feature-gated parameters may INTRODUCE them on the
 \* activation height (x/pocketcore, x/nodes BeginBlock), which is not a change of a parameter.
 BeginTags(pre, e, post) ==
     LET want == GovBeginBlock(pre, e.h) IN
-    IF /\ post.acl = want.acl /\ post.daoOwner = pre.daoOwner /\ post.upg = pre.upg
-       /\ post.featMem = pre.featMem /\ post.probe = pre.probe
-       /\ DOMAIN pre.params \subseteq DOMAIN post.params
-       /\ \A k \in DOMAIN pre.params : post.params[k] = pre.params[k]
-    THEN {} ELSE {"C36"}
+    (IF /\ post.acl = want.acl /\ post.daoOwner = pre.daoOwner /\ post.upg = pre.upg
+        /\ DOMAIN pre.params \subseteq DOMAIN post.params
+        /\ \A k \in DOMAIN pre.params : post.params[k] = pre.params[k]
+     THEN {} ELSE {"C36"})
+    \cup (IF MapMoved(pre, post) THEN {"C37S"} ELSE {})
 
 RestartTags(pre, post) ==
     IF GovFocus(post) \notin {GovFocus(o) : o \in RestartOutcomes(pre)} THEN {"C37"}
@@ -75,12 +87,13 @@ TraceNext ==
            tags == CASE e.ev = "DeliverTx"  -> DeliverTags(pre, c, e, post)
                      [] e.ev = "BeginBlock" -> BeginTags(pre, e, post)
                      [] e.ev = "Restart"    -> RestartTags(pre, post)
-                     [] e.ev = "Commit"     -> CommitTags(post, dev)
+                     [] e.ev = "Commit"     -> CommitTags(post, dev \/ polluted)
                      [] OTHER               -> {}
            new  == [i \in 1..Cardinality(tags) |-> <<l, SetToSeq(tags)[i]>>]
        IN /\ cfgLine' = cl
           /\ gpLine' = gl
           /\ dev' = IF e.ev = "reset" THEN FALSE ELSE (dev \/ "C37K" \in tags)
+          /\ polluted' = IF e.ev \in {"reset", "Restart"} THEN FALSE ELSE (polluted \/ "C37S" \in tags)
           /\ errs' = IF Len(errs) >= MaxErrs THEN errs ELSE errs \o new
 
 TraceSpec == TraceInit /\ [][TraceNext]_tvars
@@ -89,6 +102,7 @@ Tagged(tg) == \E i \in 1..Len(errs) : errs[i][2] = tg
 C36_OnlyTheOwnerChangesParamsOrMovesDaoFunds == ~Tagged("C36")
 C37_UpgradesActivateAndAreNeverLost          == ~Tagged("C37")
 C37_Strict_NoFeatureLossOnRestart            == ~Tagged("C37K")
-NoErrs == \A i \in 1..Len(errs) : errs[i][2] = "C37K"
+C37_Strict_SimulationLeavesTheScheduleAlone  == ~Tagged("C37S")
+NoErrs == \A i \in 1..Len(errs) : errs[i][2] \in {"C37K", "C37S"}
 TraceAccepted == TLCGet("stats").diameter = Len(Trace) + 1
 =============================================================================
